@@ -194,7 +194,13 @@ fn missing_bounds_contract(m: &SrcModel, e: &LinearizationError, l: &mut Local, 
 }
 
 /// adversarial texts: (name, source, user row names, user variable names that must survive or be rejected)
-const TEXTS: [(&str, &str); 22] = [
+const TEXTS: [(&str, &str); 27] = [
+    // names whose digit runs have different lengths: the variable list is in plain string order (x_10 before x_2)
+    ("indexed-family-beyond-ten", "min sum(i in 0..12) { x_i }\ns.t.\n    x_i >= i for i in 0..12\ndefine\n    x_i as Real(0, 20) for i in 0..12\n"),
+    ("digit-runs-of-different-lengths", "min y2 + y10 + x_1_2 + x_12 + y_2 + y_10\ns.t.\n    y2 + y10 >= 1\n    x_1_2 + x_12 >= 1\n    y_2 + y_10 >= 1\ndefine\n    y2, y10, x_1_2, x_12, y_2, y_10 as Real(0, 3)\n"),
+    ("more-than-ten-auxiliaries-of-one-kind", "min sum(i in 0..12) { abs { x_i - i } }\ns.t.\n    x_i <= 20 for i in 0..12\ndefine\n    x_i as Real(0, 20) for i in 0..12\n"),
+    ("split-assertion-next-to-user-suffix-name", "min a + b + c + d\ns.t.\n    pick: (a or b) and (c or d)\n    pick__2: a or c\ndefine\n    a, b, c, d as Boolean\n"),
+    ("split-assertion-after-user-suffix-name", "min a + b + c + d\ns.t.\n    pick__2: a or c\n    pick: (a or b) and (c or d) and (a or d)\n    pick__3: b or d\ndefine\n    a, b, c, d as Boolean\n"),
     ("duplicate-row-names-2", "min x\ns.t.\n    cap: x >= 1\n    cap: x <= 4\ndefine\n    x as Real\n"),
     ("duplicate-row-names-3", "min x\ns.t.\n    cap: x >= 1\n    cap: x <= 4\n    cap: x <= 5\ndefine\n    x as Real\n"),
     ("user-name-equals-dedup-candidate", "min x\ns.t.\n    cap: x >= 1\n    cap__2: x <= 4\n    cap: x <= 5\ndefine\n    x as Real\n"),
@@ -304,6 +310,43 @@ fn check_text_src(name: &str, src: &str, l: &mut Local) {
                 }
                 l.violation(format!("{sig}:{name}"), what.clone(), case_json(what, Some(lm.to_string())));
             }
+            // the row that carries a user-written name is the user's row: in a twin text in which every OTHER
+            // row name is replaced by a fresh one, the row named u is certainly the user's; it must be the same row here
+            // (only for texts whose row names are written out: an indexed name such as r_i expands to other names)
+            let names_written_out = !src.lines().any(|line| line.contains(": ") && line.contains(" for "));
+            for u in user_rows.iter().filter(|_| names_written_out) {
+                let mut k = 0;
+                let twin_src: String = src
+                    .lines()
+                    .map(|line| {
+                        let t = line.trim_start();
+                        match t.split_once(": ") {
+                            Some((n, rest)) if !n.is_empty() && n != u && n.chars().all(|c| c.is_alphanumeric() || c == '_') && !t.starts_with("let ") => {
+                                k += 1;
+                                format!("    qq{k}: {rest}")
+                            }
+                            _ => line.to_string(),
+                        }
+                    })
+                    .collect::<Vec<_>>()
+                    .join("\n");
+                if twin_src == src {
+                    continue;
+                }
+                let twin = crate::core::catch(|| RoocParser::new(twin_src.clone()).parse_and_transform(vec![], &IndexMap::new()).ok().and_then(|m| Linearizer::linearize(m).ok())).ok().flatten();
+                let Some(twin) = twin else { continue };
+                let row_of = |m: &LinearModel| m.constraints().iter().find(|c| c.name() == *u).map(|c| {
+                    let mut terms: Vec<(String, f64)> = m.variables().iter().cloned().zip(c.coefficients().iter().cloned()).filter(|(_, v)| *v != 0.0).collect();
+                    terms.sort_by(|a, b| a.0.cmp(&b.0));
+                    format!("{:?} {} {}", terms, c.constraint_type(), c.rhs())
+                });
+                l.count("user-row-names-checked-against-a-twin");
+                if let (Some(a), Some(b)) = (row_of(&lm), row_of(&twin)) {
+                    if a != b {
+                        l.violation(format!("user-row-name-on-another-row:{name}"), format!("the row named {u} is {a}; with every other row renamed it is {b}"), case_json(format!("row {u}"), Some(lm.to_string())));
+                    }
+                }
+            }
             // every user name must be used first verbatim: the first row carrying a name derived from u is u itself
             for u in &user_rows {
                 let first = lm.constraints().iter().map(|c| c.name()).find(|n| n == u || n.starts_with(&format!("{u}__")));
@@ -380,7 +423,7 @@ pub fn run(mut run: Run) -> ! {
     crate::core::silence_panics();
     let quick = run.quick();
     let depth = if quick { 2 } else { 3 };
-    run.rule = format!("every linear model compiled from the C01 families (A: cores x context chains depth {depth} x relations x constants x declaration forms; B: logic trees x comparison forms; C: bound feeders x consumers; D: blocks over three variables with different ranges in every context) is checked against the structural invariants (sorted duplicate-free variables = domain keys, every source variable present, one coefficient per variable in every row and the objective, finite numbers, unique row names, $-prefixed auxiliaries, no constant above 1e7), every missing-bounds rejection against its contract (non-empty list, exactly the unbounded variables of the offending expression per the hooked bounds analysis), plus 22 adversarial texts (duplicate and colliding row names, user variables named like auxiliaries, unused declarations, vanishing coefficients, infinite constants, infinite bounds under exact lowerings, empty aggregations), 14 texts whose finite literals (1e200, 1e308, 1e-200 written out) overflow only while rows and objective are assembled, plus family U: 9 lowering templates x 9 declared types of a user variable, which is given the name of every auxiliary the twin model (user variable called u_q) generates: the colliding model must be refused or keep as many columns and rows as the twin; distinct = model text");
+    run.rule = format!("every linear model compiled from the C01 families (A: cores x context chains depth {depth} x relations x constants x declaration forms; B: logic trees x comparison forms; C: bound feeders x consumers; D: blocks over three variables with different ranges in every context) is checked against the structural invariants (sorted duplicate-free variables = domain keys, every source variable present, one coefficient per variable in every row and the objective, finite numbers, unique row names, $-prefixed auxiliaries, no constant above 1e7), every missing-bounds rejection against its contract (non-empty list, exactly the unbounded variables of the offending expression per the hooked bounds analysis), plus 27 adversarial texts (duplicate and colliding row names, user variables named like auxiliaries, unused declarations, vanishing coefficients, infinite constants, infinite bounds under exact lowerings, empty aggregations), 14 texts whose finite literals (1e200, 1e308, 1e-200 written out) overflow only while rows and objective are assembled, plus family U: 9 lowering templates x 9 declared types of a user variable, which is given the name of every auxiliary the twin model (user variable called u_q) generates: the colliding model must be refused or keep as many columns and rows as the twin; distinct = model text");
     run.assume("derived bounds read through the verif_hooks view of the bounds analysis on the normalised constraints, as the linearizer computes them");
     let sa = family_a_size(depth, false);
     run.family("A-core-in-context", sa, move |i, l| check_case(&family_a(i, depth, false), l));
